@@ -348,10 +348,11 @@ def run_ops(world, who, ops, labels, records):
                 finally:
                     pass
                 return {'records': recs, 'events': _sub_events(mark)}
-            signal.setitimer(signal.ITIMER_REAL, 2 * CHILD_TIMEOUT + 8)    # let the grandchild's own watchdog fire first
-            pid, fd = fork_and_report(body, CHILD_TIMEOUT)
-            rep = collect(pid, fd, CHILD_TIMEOUT + 5)
-            signal.setitimer(signal.ITIMER_REAL, CHILD_TIMEOUT)
+            ct = _child_timeout[0]
+            signal.setitimer(signal.ITIMER_REAL, 2 * ct + 8)    # let the grandchild's own watchdog fire first
+            pid, fd = fork_and_report(body, ct)
+            rep = collect(pid, fd, ct + 5)
+            signal.setitimer(signal.ITIMER_REAL, ct)
             records.append({'who': who, 'op': 'fork', 'sub': rep, 'sub_who': gwho, 'sub_pid': rep.get('pid', pid)})
         else:
             label = None
@@ -402,8 +403,12 @@ def sqlite_history(case, world):
     return _sqlite_history(case, world)
 
 
+_child_timeout = [CHILD_TIMEOUT]
+
+
 def _sqlite_history(case, world):
     fn = world.filename
+    _child_timeout[0] = THREAD_STATE_CHILD_TIMEOUT if case['parent_state'] == 'thread_open_write' else CHILD_TIMEOUT
     labels = _Labels()
     obs = {'pids': {'P': os.getpid()}, 'setup': [], 'child': None, 'parent_after': [], 'final': None}
     setup = obs['setup']
@@ -466,13 +471,13 @@ def _sqlite_history(case, world):
         if case['order'] == 'parent_first':
             signal.setitimer(signal.ITIMER_REAL, PARENT_TIMEOUT)
             _read_all(go_r, PARENT_TIMEOUT)     # wait until the parent finished its script
-            signal.setitimer(signal.ITIMER_REAL, CHILD_TIMEOUT)     # the child's own watchdog starts now
+            signal.setitimer(signal.ITIMER_REAL, _child_timeout[0])     # the child's own watchdog starts now
         os.close(go_r)
         recs = []
         run_ops(world, 'C', case['child'], labels, recs)
         return {'records': recs, 'events': _sub_events(mark)}
 
-    pid, fd = fork_and_report(child_body, THREAD_STATE_CHILD_TIMEOUT if state == 'thread_open_write' else CHILD_TIMEOUT)
+    pid, fd = fork_and_report(child_body, _child_timeout[0])
     os.close(go_r)
     obs['pids']['C'] = pid
 
